@@ -135,6 +135,12 @@ def _num(macros, name, seen=()):
     v = macros[name]
     if v is None or v == "":
         raise InvalidWorld(f"empty macro {name} in arithmetic")
+    mnum = re.fullmatch(r"(0[xX][0-9a-fA-F]+|0[0-7]*|[1-9]\d*)([uUlL]*)", v)
+    if mnum:
+        body = mnum.group(1)
+        if body.lower().startswith("0x"):
+            return int(body, 16)
+        return int(body, 8) if body.startswith("0") and len(body) > 1 else int(body)
     if re.fullmatch(r"-?\d+", v):
         return int(v)
     if re.fullmatch(r"[A-Za-z_]\w*", v):
